@@ -254,8 +254,24 @@ def run_shard(ctx: Ctx) -> None:
 
 
 def replay(ctx: Ctx, file: dict) -> None:
-    """Re-runs the argument-assignment workload of the recorded document (the recorded call is among the subsets)."""
+    """Re-runs exactly the recorded call (same document, same arguments)."""
     common.use_repo()
     c = file["case"]
     d = specgen.Doc(c["doc"], c["sexp"], c["ops"], set(c["features"]))
-    run_batch(ctx, [{"doc": d, "n": 1, "trigger": set(file.get("features", []))}])
+    call = c.get("call")
+    calls = None
+    if call:
+        op = next(o for o in c["ops"] if o["seg"] == call["seg"] and o["method"] == call["http"])
+        supplied, body = [], None
+        for a in call["args"]:
+            if "body" in a:
+                body = a["body"]
+            else:
+                kind = next((p["kind"] for p in op["params"] if p["name"] == a["name"] and p["in"] == a["in"]), "string")
+                supplied.append(dict(a, kind=kind))
+        names = {(a["name"], a["in"]) for a in supplied}
+        omitted = [p for p in op["params"] if not p["required"] and (p["name"], p["in"]) not in names]
+        primary = next((k for k in op["responses"] if k.startswith("2")), "200")
+        calls = [{"id": "replay", "seg": call["seg"], "http": call["http"], "args": call["args"], "plan": {"status": int(primary), "json": {}},
+                  "_exp": {"op": op, "supplied": supplied, "body": body, "omitted": omitted}}]
+    run_batch(ctx, [{"doc": d, "n": 1, "trigger": set(file.get("features", [])), "calls": calls}])
